@@ -24,13 +24,32 @@ rest of the documented signature (other modes, ``parents``/``exist_ok`` combinat
 A mismatch does not end the machine: it is diagnosed into a stable kind ``C24:<op>:<symptom>``, the remote
 tree is re-created from the reference tree and the machine goes on. At the end the first mismatch whose
 kind is not a listed known finding is raised (else the first one), so the search continues past shallow,
-already recorded defects *inside* a machine as well as across cases.
+already recorded defects *inside* a machine as well as across cases. Kinds: semantic disagreements have
+their own symptom name with exact conditions (``mkdir:mode-not-masked-by-umask``, ``walk:never-descends``,
+``read_text:strips-whitespace`` ...); shell-syntax trouble is bucketed per (operation, trigger class) with the
+trigger classes ``space`` (word splitting), ``glob`` (pathname expansion) and ``shell-syntax`` (quotes, ``$``,
+backtick, operators, backslash, newline): ``C24:mkdir:unquoted-space``, ``C24:rmtree:hangs-unquoted-shell-syntax``;
+everything else is ``unexplained-{outcome,value,state}`` and therefore never a known finding.
+
+No verdict depends on elapsed time:
+* *hang* = the persistent shell holds its execute lock while it (or every command it waits for) is blocked
+  reading its own, empty stdin pipe and nothing it wrote is still on its way to StreamFlow
+  (``confine_c24.shell_stuck``; an unterminated quote swallowed the end marker, or ``cat PATH -`` reads the
+  command pipe). The shell is then killed and the machine goes on.
+* *runaway* = the operation issued more remote commands than a structural bound (two listings per directory
+  of the reference walk, a handful for anything else), counted by wrapping ``connector.run`` of the deployed
+  *instance* (``walk`` never descends and lists the top directory forever).
+* a command put in the background by an unquoted ``&`` is waited for (no foreign process whose working
+  directory or command line is inside the sandbox, two consecutive scans) before the trees are compared.
+Wall-clock limits exist only as safety nets and yield a harness error.
 
 Names come from two separate classes: ``plain`` and ``hostile`` (each hostile name is built around one
 trigger class: blanks, quotes, ``$``/backtick, shell operators, backslash, glob characters, leading dash,
 unicode, inert punctuation, newline; plus the mixed names of ``vf.fs``). Safety: see ``vf/confine_c24.py``
 (generator-side rule: only the *final* component of a path handed to the remote side may contain shell
-syntax; every ``sh`` of the connector runs in a mount namespace where only the shard's sandbox is writable).
+syntax; the shard runs in a mount namespace where only its sandbox is writable, with the working directory,
+``HOME`` and ``TMPDIR`` inside it; leftovers of word splitting in the working directory / home are part of the
+compared state).
 """
 from __future__ import annotations
 
@@ -135,7 +154,8 @@ def hostile_names(newline: bool = True) -> st.SearchStrategy[str]:
 def names(alpha: str) -> st.SearchStrategy[str]:
     if alpha == "plain":
         return st.one_of(*([fs.plain_names()] * 9), fs._long(fs.plain_names(), fills=("L", "x", "-", "_0", ".")))
-    return st.one_of(*([hostile_names()] * 12), fs._long(st.one_of(fs.plain_names(), hostile_names(False)))).filter(_ok_name)
+    longs = fs._long(st.one_of(fs.plain_names(), hostile_names(False)))
+    return st.tuples(st.integers(0, 12), hostile_names(), longs).map(lambda t: t[2] if t[0] == 0 else t[1]).filter(_ok_name)
 
 
 # trigger classes, most syntax-destructive first (a name is bucketed by the first one it contains)
@@ -210,9 +230,10 @@ def _tree(alpha: str, thorough: bool):
 
 
 def _target(nm, new: float, want: str = "any"):
-    """``n`` None = an existing entry, else ``<existing directory>/n[/n2]``."""
+    """``n`` None = an existing entry, else ``<existing directory>/n[/n2]``. (Not ``one_of(none, nm)``:
+    Hypothesis flattens nested ``one_of``s, which would make ``None`` one alternative among ~200.)"""
     k = int(round(new * 10))
-    n = st.one_of(*([st.none()] * (10 - k) + [nm] * k)) if 0 < k < 10 else (nm if k >= 10 else st.none())
+    n = st.tuples(st.integers(0, 9), nm).map(lambda t: t[1] if t[0] < k else None)
     return st.fixed_dictionaries({"p": st.integers(0, 63), "n": n, "want": st.just(want)})
 
 
@@ -222,7 +243,7 @@ def _ops(alpha: str, thorough: bool):
                                      "len": st.one_of(st.integers(0, 40), st.sampled_from([0, 1, 100, 5000] + ([65536, 70000] if thorough else [])))})
     query = st.fixed_dictionaries({"op": st.sampled_from(QUERY_OPS), "t": _target(nm, 0.2)})
     mkdir = st.fixed_dictionaries({
-        "op": st.just("mkdir"), "t": _target(nm, 0.8), "n2": st.one_of(st.none(), st.none(), st.none(), fs.plain_names()),
+        "op": st.just("mkdir"), "t": _target(nm, 0.7, "dir"), "n2": st.one_of(st.none(), st.none(), st.none(), fs.plain_names()),
         "mode": st.sampled_from([0o777, 0o777, 0o777, 0o777, 0o755, 0o700]),
         "parents": st.booleans(), "exist_ok": st.sampled_from([True, True, False])})
     write = st.fixed_dictionaries({"op": st.just("write_text"), "t": _target(nm, 0.6, "file"), "content": content})
@@ -541,8 +562,13 @@ class _Env:
         import vf.fakes.shellremote  # noqa: F401
         from vf.confine_c24 import Box
 
+        # worker threads for asyncio.to_thread (LocalStreamFlowPath.checksum of files > 2 KiB) must exist before
+        # the box is entered: a thread created inside would share the main thread's fs_struct and make leaving
+        # the mount namespace (setns) impossible
+        self.executor = _prestarted_executor(2)
         self.box = Box()
         self.loop = asyncio.new_event_loop()
+        self.loop.set_default_executor(self.executor)
         self.ctx = None
         self.conn = None
         self.loc = None
@@ -595,6 +621,20 @@ class _Env:
                 self.loop.close()
             finally:
                 self.box.close()
+                self.executor.shutdown(wait=False)
+
+
+def _prestarted_executor(n: int):
+    import threading
+    from concurrent.futures import ThreadPoolExecutor
+
+    ex = ThreadPoolExecutor(max_workers=n, thread_name_prefix="c24-io")
+    barrier = threading.Barrier(n + 1)
+    futures = [ex.submit(barrier.wait) for _ in range(n)]
+    barrier.wait()
+    for f in futures:
+        f.result()
+    return ex
 
 
 _ENV: list[_Env] = []
@@ -647,10 +687,10 @@ class _Runaway(Exception):
     """The operation issued more remote commands than any correct implementation needs (structural bound)."""
 
 
-OP_SAFETY_NET = float(os.environ.get('C24_SAFETY_NET', '60'))  # seconds; expiry is a harness error (inconclusive), never a verdict
+OP_SAFETY_NET = float(os.environ.get('C24_SAFETY_NET', '600'))  # seconds; expiry is a harness error (inconclusive), never a verdict
 
 
-async def _guard(env: _Env, coro, remote: bool):
+async def _guard(env: _Env, coro, remote: bool, what=None):
     """Await ``coro``; for remote operations watch the persistent shell: if it can provably make no progress
     (see ``confine_c24.shell_stuck``) the operation hangs -> ``_Hang`` after cleaning up."""
     from vf.confine_c24 import kill_shells, shell_stuck
@@ -679,7 +719,7 @@ async def _guard(env: _Env, coro, remote: bool):
             task.cancel()
             await asyncio.gather(task, return_exceptions=True)
             kill_shells(env.conn, env.loc)
-            raise HarnessError("remote operation exceeded the safety net without the shell being provably stuck (inconclusive)")
+            raise HarnessError(f"remote operation exceeded the safety net without the shell being provably stuck (inconclusive): {_short(what)}")
 
 
 async def _reset_shells(env: _Env) -> None:
@@ -697,27 +737,42 @@ async def _reset_shells(env: _Env) -> None:
 
 async def _quiesce(env: _Env) -> None:
     """Wait until no process other than the persistent shells lives in the box (commands put in the
-    background by an unquoted ``&`` must have finished before the trees are compared)."""
+    background by an unquoted ``&`` must have finished before the trees are compared). A process belongs to
+    the box if its working directory is inside it or its command line mentions it; two consecutive clean
+    scans are required (a job forked by the shell may not have been scheduled yet)."""
     from vf.confine_c24 import shell_procs
 
     keep = {p.pid for p in shell_procs(env.conn, env.loc)} | {os.getpid()}
+    base = env.box.base.encode()
     t0 = time.monotonic()
+    clean = 0
     while True:
-        busy = False
+        busy = None
         for name in os.listdir("/proc"):
             if not name.isdigit() or int(name) in keep:
                 continue
             try:
                 cwd = os.readlink(f"/proc/{name}/cwd")
             except OSError:
-                continue
-            if cwd == env.box.cwd or cwd.startswith(env.box.base + "/"):
-                busy = True
+                cwd = ""
+            try:
+                with open(f"/proc/{name}/cmdline", "rb") as fh:
+                    cmd = fh.read(4096)
+            except OSError:
+                cmd = b""
+            if cwd == env.box.cwd or cwd.startswith(env.box.base + "/") or base in cmd:
+                busy = (name, cwd, cmd[:80])
                 break
-        if not busy:
-            return
+        if _DEBUG > 2:
+            print(f"[c24] quiesce scan busy={busy}", flush=True)
+        if busy is None:
+            clean += 1
+            if clean >= 2:
+                return
+        else:
+            clean = 0
         if time.monotonic() - t0 > 30:
-            raise HarnessError("stray processes keep running in the sandbox (inconclusive)")
+            raise HarnessError(f"stray processes keep running in the sandbox (inconclusive): {busy}")
         await asyncio.sleep(0.01)
 
 
@@ -1021,7 +1076,7 @@ def diagnose(c: dict, ref, got, sdiff: dict, pre: dict) -> str:
     if got[0] == "runaway":
         return "never-descends" if op == "walk" else "runaway"
     if got[0] == "crash":
-        if op == "walk" and got[1] == "ValueError" and pre.get("newline_below"):
+        if op == "walk" and got[1] == "ValueError" and (pre.get("newline_below") or "\n" in c["rel"]):
             return "strips-blank-or-splits-newline-names"
         return f"crash-{got[1]}" + (f"-{trig}" if trig else "")
     both_ok = ref[0] == "ok" and got[0] == "ok"
@@ -1046,6 +1101,8 @@ def diagnose(c: dict, ref, got, sdiff: dict, pre: dict) -> str:
         return "failure-not-reported"
     if op == "checksum" and both_ok and ref[1] is None and got[1] == "" and not sdiff:
         return "non-file-returns-empty-string"
+    if op == "checksum" and both_ok and isinstance(ref[1], str) and got[1] == "\\" + ref[1] and not sdiff:
+        return "sha1sum-escape-marker-kept"
     if op == "size" and both_ok and not same_value and not sdiff and pre["links_below"] and not _first_trigger(c, dq_triggers):
         return "symlinks-followed-or-counted"
     if op == "rmtree" and same_outcome and pre["kind"] == "l" and pre["dangling"] and not trig:
@@ -1080,6 +1137,8 @@ def _diagnose_walk(c, ref, got, pre) -> str | None:
     top = "<ROOT>" + (f"/{c['rel']}" if c["rel"] else "")
     if c["all"] and len(got) > 1 and all(t[0] == top for t in got) and got[0] == got[1]:
         return "never-descends"
+    if ref and not c["follow"] and pre["kind"] == "l" and got and all(not t[1] and not t[2] for t in got):
+        return "nofollow-symlinked-top-lists-nothing"
     if ref and c["follow"] and pre.get("child_loop") and (not got or all(not t[1] and not t[2] for t in got)):
         return "looping-symlink-drops-whole-listing"
     if not ref or not got:
@@ -1114,12 +1173,20 @@ def _diagnose_walk(c, ref, got, pre) -> str | None:
 def _diagnose_glob(c, ref, got, pre) -> str | None:
     pat = c["pattern"]
     top = "<ROOT>" + (f"/{c['rel']}" if c["rel"] else "")
+    if any(ch in c["rel"] for ch in "*?["):
+        return "local-expands-magic-in-base-path"
+    if any(ch in c["rel"] for ch in " \t\n"):
+        return "splits-on-whitespace"  # every printed match contains the directory's own blanks
     ws = [m for m in ref if any(ch in m for ch in " \t\n")]
-    if ws:
-        tokens = {y for m in ws for x in m.split() for y in (x, x.rstrip("/"))}
-        clean = {m for m in ref if m not in ws}
-        if clean <= set(got) and all(g in clean or g in tokens for g in got):
-            return "splits-on-whitespace"
+    tokens = {y for m in ws for x in m.split() for y in (x, x.rstrip("/"))}
+    clean = {m for m in ref if m not in ws}
+    extras = [g for g in got if g not in clean and g not in tokens]
+    missing = [m for m in clean if m not in got]
+    if ws and not extras and not missing:
+        return "splits-on-whitespace"
+    if (extras or missing) and ("?" in pat or "[" in pat) and all(any(ord(ch) > 127 for ch in n.rsplit("/", 1)[-1]) for n in extras + missing):
+        # sh (dash, busybox ash) matches `?` and bracket expressions against bytes, glob.glob against characters
+        return "question-mark-matches-bytes-not-characters"
     if pat == ".*":
         # sh also expands ".*" to "." and ".." (normalised by PurePath to the directory and "<dir>/..")
         dots = [top + "/.", top + "/.."]
@@ -1128,6 +1195,8 @@ def _diagnose_glob(c, ref, got, pre) -> str | None:
             return "dot-star-matches-dot-and-dotdot"
     if ref and not got and pre.get("first_match_dangling"):
         return "dangling-first-match-hides-all"
+    if any(ch in pat for ch in "*?[") and got == [f"{top}/{pat}"] and got[0] not in ref:
+        return "unmatched-pattern-taken-literally"
     if pat.endswith("/"):
         return "trailing-slash-pattern"
     return None
@@ -1137,13 +1206,20 @@ def _diagnose_glob(c, ref, got, pre) -> str | None:
 # the machine
 
 
-def _known_kinds() -> set[str]:
-    try:
-        from vf.runner import load_known
+_KNOWN: list[set[str]] = []
 
-        return {f["kind"] for f in load_known("C24")}
-    except Exception:  # noqa: BLE001
-        return set()
+
+def _known_kinds() -> set[str]:
+    """Kinds listed as known findings (read once per process; only used to choose *which* mismatch of a
+    machine is reported first - every mismatch is reported as a violation either way)."""
+    if not _KNOWN:
+        try:
+            from vf.runner import load_known
+
+            _KNOWN.append({f["kind"] for f in load_known("C24")})
+        except Exception:  # noqa: BLE001
+            _KNOWN.append(set())
+    return _KNOWN[0]
 
 
 def _outcome(fn):
@@ -1159,7 +1235,7 @@ async def _sut_outcome(env: _Env, driver: str, root: str, c: dict):
     # a correct walk needs two listings per directory it yields; every other operation a handful of commands
     env.commands_left = 2 * c.get("bound", 20) + 4
     try:
-        return ("ok", await _guard(env, _sut(env, driver, root, c), driver == "remote"))
+        return ("ok", await _guard(env, _sut(env, driver, root, c), driver == "remote", c))
     except _Hang:
         return ("hang", None)
     except _Runaway:
@@ -1245,7 +1321,11 @@ async def _machine(case: dict, rec, driver: str) -> None:
                 rec.label("skip:cyclic")
                 continue
             if op == "walk":
-                c["bound"] = len(entries) + 3
+                # structural bound for the remote walk: it may yield one tuple per directory of the reference walk
+                try:
+                    c["bound"] = len(_Ref.walk(os.path.join(L, c["rel"]) if c["rel"] else L, True, c["follow"])) + 1
+                except OSError:
+                    c["bound"] = 2
             if alpha == "plain" and not all(inert(n) for n in c["names"]):
                 raise HarnessError(f"plain machine produced a non-plain name: {c['names']!r}")
             pre = _pre_state(L, c)
@@ -1258,7 +1338,8 @@ async def _machine(case: dict, rec, driver: str) -> None:
             if _DEBUG > 1:
                 print(f"[c24]   ref={_short(ref, 200)} got={_short(got, 200)}", flush=True)
             hostile = any(name_class(n) not in ("plain", "inert-punct", "unicode", "dash") for n in c["names"])
-            if remote and (hostile or got[0] != "ok"):
+            # only an unquoted "&" can leave a command running behind the shell's back (everything else is waited for)
+            if remote and (got[0] in ("hang", "runaway") or any("&" in n for n in c["names"] + [c.get("pattern", "")])):
                 await _quiesce(env)
             sdiff = snap_diff(after, snap(S))
             executed += 1
@@ -1304,10 +1385,6 @@ async def _machine(case: dict, rec, driver: str) -> None:
         rec.nontrivial(executed > 0 and (hostile_touch or mut_then_query))
     finally:
         if remote:
-            try:
-                await _quiesce(env)
-            except HarnessError:
-                pass
             env.box.scrub()
         from vf.confine_c24 import _chmod_tree
 
@@ -1327,14 +1404,17 @@ def _short(x, limit: int = 700) -> str:
 
 def _run(case: dict, rec, driver: str) -> None:
     env = _env()
-    env.loop.run_until_complete(asyncio.wait_for(_machine(case, rec, driver), 600))
+    try:
+        env.loop.run_until_complete(asyncio.wait_for(_machine(case, rec, driver), 900))
+    except asyncio.TimeoutError as e:
+        raise HarnessError("machine exceeded the 900 s safety net (inconclusive)") from e
 
 
-@prop.given("remote", _tier_strategy, quick=320, thorough=8000, shrink=False, setup=_setup, teardown=_teardown)
+@prop.given("remote", _tier_strategy, quick=240, thorough=6000, shrink=False, setup=_setup, teardown=_teardown)
 def remote(case, rec):
     _run(case, rec, "remote")
 
 
-@prop.given("local", _tier_strategy, quick=320, thorough=4000, shrink=False, setup=_setup, teardown=_teardown)
+@prop.given("local", _tier_strategy, quick=160, thorough=6000, shrink=False, setup=_setup, teardown=_teardown)
 def local(case, rec):
     _run(case, rec, "local")
